@@ -2,7 +2,7 @@
 per layout variant (FAT32 / not FAT32), computed from the MIR: primitive I/O calls in control-flow order on the
 Ok path, widths from the primitive or the buffer's statically known length, loops over fixed arrays multiplied
 out, nested codecs spliced in, fields attributed by data dependence."""
-from analyses import Deps, error_blocks, label_results, nonzero_targets, zero_targets
+from analyses import Deps, error_blocks, label_results, nonzero_targets, switch_source, zero_targets
 from intervals import Analysis
 from model import op_const, op_place, place_key
 
@@ -109,15 +109,44 @@ def self_field_of_operand(fn, deps, o, skip=('wrt', 'rdr'), an=None):
     return '?'
 
 
+def _variant_analysis(facts, fn, fat32):
+    import intervals
+    old = dict(intervals.ASSUME_CALLS)
+    if fat32 is not None:
+        intervals.ASSUME_CALLS['::is_fat32'] = (1, 1) if fat32 else (0, 0)
+    try:
+        return Analysis(facts, fn)
+    finally:
+        intervals.ASSUME_CALLS.clear()
+        intervals.ASSUME_CALLS.update(old)
+
+
+def all_variant_cuts(fn, fat32):
+    """edges not taken under the given variant, over every switch that tests is_fat32() (the layout code may test it
+    more than once, e.g. through a helper that returns a length)"""
+    d = Deps(fn)
+    cut = set()
+    for bi in sorted(fn.reachable()):
+        t = fn.blocks[bi]['term']
+        if t['k'] != 'switch':
+            continue
+        src = switch_source(fn, bi)
+        direct = src and src['kind'] == 'call' and (src.get('callee') or '').endswith('::is_fat32')
+        if not direct:
+            continue
+        cut |= {(bi, x) for x in (zero_targets(t) if fat32 else nonzero_targets(t))}
+    return cut
+
+
 def encoder_sequence(facts, fn, fat32=None, depth=0):
     """[(width, field)] written on the Ok path for the given variant"""
     deps = Deps(fn)
-    an = Analysis(facts, fn)
+    an = _variant_analysis(facts, fn, fat32)
     cut = set()
     vs = variant_switch(fn)
     if vs is not None and fat32 is not None:
         sw, tt, ff = vs
-        cut = {(sw, x) for x in (ff if fat32 else tt)}
+        cut = {(sw, x) for x in (ff if fat32 else tt)} | all_variant_cuts(fn, fat32)
     allowed = ok_blocks(fn, cut)
     seq = []
     done_loops = set()
@@ -157,12 +186,12 @@ def encoder_sequence(facts, fn, fat32=None, depth=0):
 def decoder_sequence(facts, fn, fat32=None, depth=0, struct_adt=None, variant_pred=None):
     """[(width, field)] read on the Ok path; field = the struct field the value ends up in"""
     deps = Deps(fn)
-    an = Analysis(facts, fn)
+    an = _variant_analysis(facts, fn, fat32)
     cut = set()
     vs = variant_switch(fn)
     if vs is not None and fat32 is not None:
         sw, tt, ff = vs
-        cut = {(sw, x) for x in (ff if fat32 else tt)}
+        cut = {(sw, x) for x in (ff if fat32 else tt)} | all_variant_cuts(fn, fat32)
     if variant_pred is not None:
         cut |= variant_pred(fn)
     allowed = ok_blocks(fn, cut)
@@ -244,15 +273,31 @@ def field_receiving_local(fn, deps, local, allowed):
                     if p is not None and p['l'] == local and i < len(s['rv']['fields']):
                         return s['rv']['fields'][i]
                     if p is not None and not p['p']:
-                        # moved through a temp
-                        if ('local', local) in deps.direct.get(p['l'], ()) and i < len(s['rv']['fields']):
+                        # moved through temps / parameters of an inlined helper (plain copies only)
+                        if local in _copy_chain(fn, p['l']) and i < len(s['rv']['fields']):
                             return s['rv']['fields'][i]
             if s['k'] == 'assign' and s['lhs']['p'] and 'f' in s['lhs']['p'][-1] and s['lhs']['p'][-1].get('n') and \
                     s['rv']['k'] == 'use':
                 p = op_place(s['rv']['a'])
-                if p is not None and not p['p'] and (p['l'] == local or ('local', local) in deps.direct.get(p['l'], ())):
+                if p is not None and not p['p'] and local in _copy_chain(fn, p['l']):
                     return s['lhs']['p'][-1]['n']
     return None
+
+
+def _copy_chain(fn, local):
+    out = {local}
+    cur = local
+    for _ in range(12):
+        defs = [s for bi in fn.reachable() for s in fn.blocks[bi]['stmts']
+                if s['k'] == 'assign' and s['lhs']['l'] == cur and not s['lhs']['p']]
+        if len(defs) != 1 or defs[0]['rv']['k'] != 'use':
+            break
+        p = op_place(defs[0]['rv']['a'])
+        if p is None or p['p']:
+            break
+        cur = p['l']
+        out.add(cur)
+    return out
 
 
 def with_offsets(seq):
@@ -271,6 +316,14 @@ def arm_cut_for_variant(fn, adt, want_variant):
         for s in fn.blocks[bi]['stmts']:
             if s['k'] == 'assign' and s['rv']['k'] == 'agg' and s['rv'].get('adt') == adt:
                 prod.setdefault(s['rv']['variant'], set()).add(bi)
+        # the variant constructor handed to a combinator: `decode_x(..).map(Enum::Variant)`
+        t = fn.blocks[bi]['term']
+        if t['k'] == 'call':
+            for a in t['args']:
+                c = op_const(a)
+                if c is not None and (c.get('fn') or '').startswith(adt + '::'):
+                    vname = c['fn'][len(adt) + 2:].split('::')[0]
+                    prod.setdefault(vname, set()).add(bi)
     others = set()
     for v, bs in prod.items():
         if v != want_variant:
